@@ -17,6 +17,7 @@ fn registry() -> Vec<(&'static str, RunFn, ReplayFn)> {
         ("C03", props::c03::run, props::c03::replay),
         ("C04", props::c04::run, props::c04::replay),
         ("C05", props::c05::run, props::c05::replay),
+        ("C07", props::c07::run, props::c07::replay),
         ("C11", props::c11::run, props::c11::replay),
         ("C16", props::c16::run, props::c16::replay),
     ]
